@@ -78,12 +78,12 @@ impl Binder {
     fn new() -> Self {
         Self { log: RefCell::new(Vec::new()) }
     }
-    fn define(&self, name: Name, val: css::Value) -> Result<(), ()> {
+    fn define(&self, name: Name, val: css::Value) -> std::result::Result<(), ()> {
         self.log.borrow_mut().push(Ev::Bound(name.as_ref().as_bytes()[0], tag(&val)));
         Ok(())
     }
     /// every default in the harnesses is `null`
-    fn eval_default(&self, _default: &Value) -> Result<css::Value, ()> {
+    fn eval_default(&self, _default: &Value) -> std::result::Result<css::Value, ()> {
         self.log.borrow_mut().push(Ev::DefaultEvaluated);
         Ok(css::Value::Null)
     }
